@@ -116,11 +116,12 @@ class Token(Leaf):
 
 @nodedataclass
 class Constant(Leaf):
-    literal: str = ''
+    literal: Any = None
 
     def __post_init__(self):
         super().__post_init__()
-        self.literal = self.literal or self.ast
+        if self.literal is None:
+            self.literal = self.ast
 
     def _parse(self, ctx: Ctx) -> Any:
         return ctx.constant(self.literal)
